@@ -156,6 +156,8 @@ class StubDense:
 
     def __call__(self, t):
         self.calls += 1
+        # scipy's DenseOutput is an interpolant for t_min <= t <= t_max only; outside it extrapolates a local polynomial
+        core.ENG.oblige(z3.And(lift(self.t_min) <= lift(t), lift(t) <= lift(self.t_max)), "run_ode evaluates an interpolator outside its time range [t_min, t_max]")
         return SymArray([core.fresh_real(f"dn{self.k}_{self.calls}_{i}") for i in range(self.n)], (self.n,), name="dense")
 
 
@@ -381,6 +383,7 @@ def battery():
     def lin(a):
         def eq(s, t, c, out):
             out[0] = a * s[0] + c[0]
+        eq.rate = a
         return eq
 
     def drift(v):
@@ -411,6 +414,9 @@ def battery():
              # a controller that is fine for the start state but out of range at every later evaluation: the last acceptable time stays 0 in every cycle
              ("ctrl bad at every t > 0", lin(-0.1), cblow(0.0), [1.0], 10.0), ("ctrl bad at every t > 0, long horizon", lin(-0.1), cblow(0.0), [1.0], 50000.0),
              # very few output rows on a slowly diverging system: the failure is only noticed while the rows are built
+             # output grids much coarser than the integrator's steps: several interpolators lie between two rows
+             ("decay check, 6 rows over 50", lin(-1.0), c0, [1.0], 50.0, 6), ("decay check, 12 rows over 30", lin(-0.5), c0, [2.0], 30.0, 12),
+             ("decay check, 25 rows over 20", lin(-2.0), c0, [3.0], 20.0, 25),
              ("drift 9.99e9, two rows", drift(9.99e9), c0, [0.0], 50000.0, 2), ("drift 9.99e9, three rows", drift(9.99e9), c0, [0.0], 50000.0, 3)]
     probs = []
     for case in cases:
@@ -436,8 +442,8 @@ def battery():
         jv = j_from_ode(res, 1)
         if not (jv >= 0):
             probs.append(f"{name}: J = {jv} negative")
-        if name == "decay check":
-            exp = 3.0 * np.exp(-2.0 * res[:, -1])
+        if name.startswith("decay check"):
+            exp = s0[0] * np.exp(eq.rate * res[:, -1])
             if np.max(np.abs(res[:, 0] - exp)) > 2e-2:
                 probs.append(f"{name}: deviates from the analytic solution by {float(np.max(np.abs(res[:, 0] - exp))):.3g}")
     return bool(probs), dict(problems=probs[:4], cases=len(cases))
